@@ -451,7 +451,7 @@ def replay_match(point, stored):
 def main():
     chk = H.Check("C44")
     thorough = H.tier() == "thorough"
-    chk.bounds = ["operator tensors of shape (f,x,f,x) with (f,x) in {(2,2)} (quick) / {(2,2),(3,2),(2,3),(14,2)} (thorough); all entries of both operators and both errors symbolic reals of either sign (non-commuting)",
+    chk.bounds = ["operator tensors of shape (f,x,f,x) with (f,x) in {(2,2)} (quick) / {(2,2),(3,2),(2,3),(4,2)} (thorough); all entries of both operators and both errors symbolic reals of either sign (non-commuting)",
                   "first EKO: 2 targets (one matched, nf=5; one other nf); second EKO: 3 targets of which 2 are new and 1 coincides with a target of the first",
                   "errors present/absent on either factor (4 combinations)",
                   "matching: initial scale m>0 of the second EKO symbolic, stored mu^2 in {(100), (100, 100.4), (100, 400)} plus the same scale with another nf; rtol=1e-3, atol=0.5 passed explicitly"]
@@ -461,7 +461,7 @@ def main():
     chk.stubs = ["EKO -> in-memory stand-in (ops dict, __iter__/items/__getitem__/__setitem__/__contains__, deepcopy(path)/edit(path)/close on a dict 'disk'); approx is the real eko.io.struct.EKO.approx",
                  "np.abs -> algebraic atom a with a>=0, a^2=x^2 (exact characterisation of |x| over the reals)"]
     chk.assumptions = ["index convention O[out_pid,out_x,in_pid,in_x] as in ekobox.apply._EKO_CONTRACTION and eko.runner.operators._dot4/join (later . earlier)"]
-    dims = [(2, 2)] + ([(3, 2), (2, 3), (14, 2)] if thorough else [])
+    dims = [(2, 2)] + ([(3, 2), (2, 3), (4, 2)] if thorough else [])
     for d in dims:
         for e1, e2 in itertools.product((True, False), repeat=2):
             if d != (2, 2) and not (e1 and e2):
